@@ -437,6 +437,15 @@ class ColorValue(Value):
                             raw.append(int(255 * item.value.value / 100))
                         check += 'P'
 
+                if len(raw) < 3:
+                    # e.g. end of input right after ``rgb(``
+                    self.wellformed = False
+                    self._log.error(
+                        'ColorValue: Missing color components: %s'
+                        % self._valuestr(cssText)
+                    )
+                    return
+
                 if HSL:
                     # convert to rgb
                     # h is 360 based (circle)
